@@ -492,7 +492,7 @@ func genScenario(t *rapid.T) (scenario, slog.Attrs, []any) {
 		// ... and the documentation's sample marshaller (it prints strings through the encoder's AddString)
 		g.Vals = rapid.OneOf(vlib.GenValue(vlib.GenAnyString()), vlib.GenValue(vlib.GenAnyString()), vlib.GenValue(vlib.GenAnyString()), vlib.GenDocUser(vlib.GenAnyString()))
 	}
-	if sc.Sev == slog.AlwaysLevel && strings.Trim(sc.Msg, " \t\r\n") == "" {
+	if sc.Sev == slog.AlwaysLevel && vlib.LooksBlank(sc.Msg) {
 		sc.Msg = "x" + sc.Msg // a blank Print is a bare newline (C02), not a record
 	}
 	sc.Attrs = vlib.GenAttrs(t, g, 0)
@@ -529,7 +529,7 @@ func FuzzColored(f *testing.F) {
 			{Key: "g", IsGroup: true, Group: []vlib.ExpAttr{{Key: "m", Val: vlib.Value{Kind: "named-string", V: vlib.MyStr(sval)}}}},
 		}
 		args := []any{"s", sval, "b", bval, "e", attrs[2].Val.V, "p", attrs[3].Val.V, slog.Group("g", "m", vlib.MyStr(sval))}
-		if strings.Trim(msg, " \t\r\n") == "" {
+		if vlib.LooksBlank(msg) {
 			msg += "x"
 		}
 		run(t, "FuzzColored", scenario{Sev: slog.InfoLevel, TagW: 3, MsgW: 36, Msg: msg, Class: "hygiene", Attrs: attrs, ViaVerb: true, Named: true}, nil, args)
